@@ -71,6 +71,11 @@ def cases(draw, tier="quick"):
             if mode == 1:
                 u = u + draw(st.sampled_from(DELIMS_ALL)) + draw(st.sampled_from(TAILS))
         uris.append(u)
+    if uris and draw(st.integers(0, 24)) == 0:
+        # a large input around typical chunk sizes: the drawn URIs plus numbered siblings of the first few
+        target = draw(st.sampled_from([100, 257, 1001]))
+        base = [u for u in uris[:3]]
+        uris = uris + [b + str(k) for k in range(target) for b in base[:1]]
     dmode = draw(st.integers(0, 3))
     if dmode == 0:
         delimiters = None
